@@ -230,8 +230,8 @@ prop("C11", "exploration",
 
 prop("C07", "exploration",
      "sequences of foreign calls (direct Foreign functions and JSON-RPC bodies through ForeignAPIHandlerV2::post) against a victim wallet holding confirmed outputs, "
-     "a locked pending send awaiting its reply, an issued invoice and an unconfirmed coinbase candidate, two accounts: honest receives (default / other account) "
-     "and their second delivery, hostile receives from the structural slate generator mixed with the victim's own slate ids, output commitments and public "
+     "a locked pending send awaiting its reply, a late-locked pending send (nothing reserved yet) with its genuine reply held back, an issued invoice and an unconfirmed coinbase candidate, two accounts: honest receives (default / other account) "
+     "and their second delivery (also after the first receipt has been put into the state a reorganisation + scan leaves: entry reverted, output reverted), hostile receives from the structural slate generator mixed with the victim's own slate ids, output commitments and public "
      "participant data, build_coinbase with arbitrary fees/heights and key ids (none, existing outputs' paths, an unconfirmed candidate's path, random), "
      "finalize_tx with generated slates, the victim's own S1 echoed back, the genuine reply with a damaged partial signature or without the recipient output, "
      "a fabricated Invoice2 under the own invoice id, check_version. Oracle: diff of the complete LMDB key/value dump before/after each call (plus files and "
@@ -244,7 +244,7 @@ prop("C07", "exploration",
      {"quick": 2500, "thorough": 30000},
      ["id and derivation counters may advance on a refused call (they reserve nothing)",
       "a validly counter-signed reply to an own slate is C02's domain and is not sent here"],
-     required_hist=["HonestReceive:ok", "RepeatReceive:refused", "HostileReceive:ok", "HostileReceive:refused", "BuildCoinbase:ok", "HostileFinalize:refused"])
+     required_hist=["HonestReceive:ok", "RepeatReceive:refused", "HostileReceive:ok", "HostileReceive:refused", "BuildCoinbase:ok", "HostileFinalize:refused", "received-payment-put-into-reverted-state"])
 
 prop("C13", "exploration",
      "session histories on OwnerAPIHandlerV3::post (in-process hyper requests): plaintext and encrypted (re-)key exchanges interleaved with requests; a client "
